@@ -22,6 +22,10 @@ CLAIMED["C17"] = ("The backlog counter is tied to the true backlog by the queue 
   "Assumed: as C01. Overflow closes the connection through closeWithErrorWithoutLock (contract trusted here). Signed arithmetic treated as mathematical (left + n does not overflow int64).",
   "DESIGN.md 4 C17")
 
+CLAIMED["C04"] = ("The safety core of the liveness claim is a monitor invariant of the connection mutex, proved at every Unlock of Write, Writev, Sendfile, flush, ResetPollerEvent and addConn: a non-empty backlog implies the write flag is set; on a registered descriptor the flag equals 'EPOLLOUT is in the registered mask' (LT and ET+ONESHOT) or EPOLLOUT is always registered (ET). setRead/setReadWrite/modWrite/resetRead are verified against the epoll mask they produce in each mode. Registration: after addConn succeeds the invariant holds for whatever the open callback did. One-shot: every non-closing return of flush that saw a backlog, and every ResetPollerEvent on a live registered connection, has performed a successful EPOLL_CTL_MOD (re-arm). Lock discipline (lockset) of all these functions.",
+  "Not decided: 'eventually' itself - that the kernel reports EPOLLOUT for an armed writable descriptor and that the poller loop then calls flush (fairness of epoll and of the loop) is assumed; the poller loop readWriteLoop and AsyncRead are not under contract. Assumed: epoll_ctl contract (ADD of an unregistered / MOD of a registered descriptor succeeds, no ENOMEM), open callbacks reach the connection only through its public methods, addDialer (dial path) not verified.",
+  "DESIGN.md 4 C04")
+
 NA = {
  "C18": "termination of Stop/Shutdown and release of goroutines/descriptors for all histories is liveness + whole-process resource state; no contract within reach of a per-function deductive verifier decides it (DESIGN.md 4 C18)",
 }
